@@ -9,6 +9,8 @@
                      advances only on the branch where the record type read equals Type::OPT
   C03.e budget       (E4) a trusted reader that limits the pointers it follows allows at least the validator's 16
   C03.f end of walk  a step function returns None only on the true side of `<header count | edns_count | rrs_left> == 0`
+  C03.g reader premise  rr_ip / rr_rd read 4 / 16 bytes unchecked: every accepting path of the validator on which the type is A / AAAA
+                     passes the `rdlen == 4 / 16` test (shared with C02.a)
   C03.c layout       (see rules/layout.py) the readers' field tuples equal the RFC table, the validator's and the builder's
 
 Not decided here: that the walk visits exactly the records present for every accepted packet, name
@@ -144,6 +146,8 @@ def run(ctx):
         layout.check_readers(ctx, facts, cfg, 'C03.c')
         pointer_budget_rule(ctx, facts, cfg)
         none_rule(ctx, facts, cfg)
+        from rules import C02
+        C02.address_size_rule(ctx, facts, cfg, 'C03.g')
     ctx.assume('cursor invariants of accepted packets (offset <= offset_next <= len) are run-time facts and are not decided here')
 
 
